@@ -14,6 +14,7 @@ def run(rep: Report, tier: str, only=None) -> None:
 		jobs.append(Job('O1.dsn', H, 'dsn_law', {'n': n, 'p': f}, t, 'S', f'first identifier {f!r} (case split), two symbolic identifiers <= {n} over [a b _ 1]: join/elements/elem_counts/left/right/shift/root/parent vs the list of elements', ('overlapping_names',)))
 		jobs.append(Job('O3.module_dsn', H, 'module_dsn_law', {'n': n, 'p': f}, t, 'S', f'module path p.q and local names r, p (p = {f!r} per case, q, r symbolic <= {n}): ModuleDSN.full_joined/parsed/expanded/expand_elements/join/identify', ('module_dsn',)))
 		jobs.append(Job('O4.entry_path', H, 'entry_path_law', {'n': n, 'p': f}, t, 'S', f'three tags (first {f!r} per case, two symbolic <= {n}): EntryPath.join/elements/first/last/parent_tag/identify/shift/contains/joined', ('entry_path',)))
+	jobs.append(Job('O5.pipeline', 'harness.c08_pipeline', 'nested_renaming_law', {'template': 3}, t, 'F', 'nested-class / block-local template (a class nested in a class used through inferred locals and a list, a local first assigned inside a nested block next to a function-level local) under 60 renamings (nested class named after its outer class, outer class a prefix of the nested one, block local that extends the name of the outer local)', ('renaming',)))
 	jobs.append(Job('O5.pipeline', 'harness.c08_pipeline', 'ctor_renaming_law', {'template': 2}, t, 'F', 'constructor / sort / factory template (constructor writing through another parameter and calling a method, list.sort with a key lambda, a method returning a user class) under 144 renamings (names starting with self, ending in __init__, one-letter lambda parameters that occur inside other words, class names starting with Iterator / ItemsView)', ('renaming',)))
 	jobs.append(Job('O5.pipeline', 'harness.c08_pipeline', 'enum_renaming_law', {'template': 1}, t, 'F', 'enum template (three members, .value references, member reference) under 54 renamings (members that are suffixes / prefixes of each other, reordered spellings)', ('renaming',)))
 	for g0 in range(16):
